@@ -47,6 +47,9 @@ type Scenario struct {
 	Feed       int      `json:"feed,omitempty"`
 	Restart    bool     `json:"restart,omitempty"`
 	Raw        bool     `json:"raw,omitempty"`
+	StartReg   bool     `json:"startreg,omitempty"`
+	OpenStart  bool     `json:"openstart,omitempty"`
+	LateFirst  bool     `json:"latefirst,omitempty"`
 }
 
 type Outcome struct {
@@ -65,6 +68,7 @@ type Outcome struct {
 	Buffers     map[string]map[string][]uint32 `json:"buffers,omitempty"`
 	Latest      map[string]uint32              `json:"latest,omitempty"`
 	MPDTrace    map[string][]string            `json:"mpd_trace,omitempty"`
+	Manifest    map[string]string              `json:"manifest,omitempty"`
 }
 
 type race struct {
@@ -176,6 +180,22 @@ func scenarios(c *lib.Ctx, rng *rand.Rand) []Scenario {
 	for _, n := range []int{2, 4, 8} {
 		scs = append(scs, Scenario{Channels: []string{"rs"}, Tracks: oneVideoTracks(n), Auth: true, Restart: true, Rounds: rounds / 2})
 		scs = append(scs, Scenario{Channels: []string{"rw"}, Tracks: oneVideoTracks(n), Auth: true, Restart: true, Raw: true, Rounds: rounds / 2})
+	}
+	// a track registers during the start-up of the channel (between the goroutine's look at the track table and its
+	// MPD write); 3..7 tracks delivered before, the new name sorts before or after them
+	for i, n := range []int{4, 6, 7, 8} {
+		tr := oneVideoTracks(n - 1)
+		lateName := []string{"a-late", "zz-late", "b-late", "text0"}[i]
+		late := assets[3]
+		if i%2 == 1 {
+			late = assets[1]
+		}
+		late.Name = lateName
+		scs = append(scs, Scenario{Channels: []string{"sr"}, Tracks: append(tr, late), StartReg: true, Rounds: 2 * rounds})
+	}
+	// shifted channel: uploads of the other tracks are open (no body byte sent yet) while the master starts the channel
+	for _, n := range []int{2, 3} {
+		scs = append(scs, Scenario{Channels: []string{"os"}, Tracks: oneVideoTracks(n), OpenStart: true, Rounds: rounds / 2})
 	}
 	// more messages outstanding than the channel's queue holds while the channel goroutine waits for the MPD mutex
 	for _, n := range []int{6, 8} {
@@ -386,6 +406,11 @@ func run(c *lib.Ctx) error {
 			continue // liveness has no sequential reference
 		}
 		all = append(all, ref)
+		if s.StartReg { // the other admissible order: the last track registers before the master's segment 2
+			ref2 := ref
+			ref2.LateFirst = true
+			all = append(all, ref2)
+		}
 	}
 	scPath := filepath.Join(c.Out, "c19_scenarios.json")
 	b, _ := json.Marshal(all)
@@ -506,6 +531,12 @@ func run(c *lib.Ctx) error {
 		if sc.Feed > 0 {
 			nUp = (1 + sc.Feed) * len(sc.Channels) * len(sc.Tracks)
 		}
+		if sc.StartReg {
+			nUp = 3*(len(sc.Tracks)-1) + 2
+		}
+		if sc.OpenStart {
+			nUp = 5 * len(sc.Tracks)
+		}
 		if sc.Restart {
 			half := (len(sc.Tracks) + 1) / 2
 			nUp = 2*half + len(sc.Tracks) + (len(sc.Tracks) - half) // earlier run, authorised segment 2, init of the new tracks
@@ -561,6 +592,11 @@ func run(c *lib.Ctx) error {
 			r, ok := ref[o.Scenario+1]
 			if ok {
 				for _, ch := range sc.Channels {
+					r2, has2 := ref[o.Scenario+2]
+					if o.Manifest[ch] != r.Manifest[ch] && !(sc.StartReg && has2 && o.Manifest[ch] == r2.Manifest[ch]) {
+						c.Fail(id, "manifest-differs-from-sequential", fmt.Sprintf("channel %s: manifest.mpd has %q, the sequential run %q", ch, o.Manifest[ch], r.Manifest[ch]), sc)
+						break
+					}
 					if fmt.Sprint(o.Buffers[ch]) != fmt.Sprint(r.Buffers[ch]) || o.Latest[ch] != r.Latest[ch] {
 						c.Fail(id, "final-state-differs-from-sequential", fmt.Sprintf("channel %s: every upload was answered 200, but the per-track segment buffers %v and the newest published number %d differ from the sequential run's %v and %d", ch, o.Buffers[ch], o.Latest[ch], r.Buffers[ch], r.Latest[ch]), sc)
 						break
